@@ -1322,11 +1322,14 @@ def flw12(ctx):
                     prev = items[pos_i[0] - 1] if pos_i and pos_i[0] > 0 else None
                     if prev is not None and prev.get("e") == "loop":
                         pin = hirq.strip(prev["body"])
-                        driven = pin.get("e") == "if" and any(m["e"] == "path" and m.get("local") == "state_index" for m in hirq.walk(pin["cond"])) and any(
-                            m["e"] == "mcall" and m["name"] == "len" for m in hirq.walk(pin["cond"]))
+                        # the loop ends only when the states are used up (or by `break` under the cleared flag): its guard is
+                        # the index test alone -- a further conjunct (`&& word.in_bounds(..)`) lets it stop with states left
+                        pc = hirq.strip(pin["cond"]) if pin.get("e") == "if" else {}
+                        driven = pin.get("e") == "if" and pc.get("e") == "binary" and pc.get("op") in ("Lt", "Le", "Gt", "Ge", "Ne") and any(
+                            m["e"] == "path" and m.get("local") == "state_index" for m in hirq.walk(pc)) and any(m["e"] == "mcall" and m["name"] == "len" for m in hirq.walk(pc))
                         clears = any(n_["e"] == "assign" and expr_name(n_["lhs"]) == ("local", flag) and hirq.strip(n_["rhs"]).get("lit") is False for n_ in hirq.walk(prev))
                         ok = driven and clears
-                        why = "the loop before it is not driven by `state_index < states.len()` or does not clear `%s` on a failed element" % flag
+                        why = "the loop before it is not driven by `state_index < states.len()` alone or does not clear `%s` on a failed element" % flag
                     else:
                         why = "no loop over the remaining states precedes it"
                 elif _consumes_all_helper(lib, c, cm.path):
